@@ -283,7 +283,7 @@ def rand_case(rng, restart=False):
         elif r < 0.95:
             ops.append(["reset"])
         else:
-            ops.append(["start", rng.choice([interval, 1, 3, -1, 0]), rng.random() < 0.5])
+            ops.append(["start", rng.choice([interval, 1, 3, -1]), rng.random() < 0.5])
     if restart:
         ops.append(["stop"])
         ops.append(["start", interval, rng.random() < 0.7])
